@@ -49,6 +49,7 @@ type sim struct {
 	pointHits int
 	tripped   bool
 	pointDone bool
+	armed     bool
 	killed    int
 	acked     int
 	dumps     []string
@@ -212,7 +213,7 @@ func (s *sim) bubble() (final []lin.Op, mismatch string) {
 	s.pend = make([]*pending, g.clients)
 	if g.crashPoint != "" {
 		cl.OnPoint = func(name string, gid, rid uint64) {
-			if name == g.crashPoint && !s.tripped && !s.pointDone && rid == nodeh.ReplicaID(0, 0) && cl.M[0].Up {
+			if name == g.crashPoint && s.armed && !s.tripped && !s.pointDone && !cl.Stopping && rid == nodeh.ReplicaID(0, 0) && cl.M[0].Up {
 				s.pointHits++
 				if s.pointHits == g.crashHit {
 					s.tripped = true
@@ -230,6 +231,7 @@ func (s *sim) bubble() (final []lin.Op, mismatch string) {
 		return
 	}
 	s.believed = cl.Leader(0)
+	s.armed = true // crash points count from here on (no faults during boot)
 	w := []int{g.wInvoke, g.wTick, g.wDeliver, g.wKill, g.wRestart, g.wStop, g.wTransfer, g.wPart, g.wHeal, g.wSleep}
 	ev := 0
 	for ; ev < g.events && len(c.Viol) == 0; ev++ {
@@ -482,7 +484,9 @@ func (s *sim) event(kind int) {
 		c.Fault("stop_graceful")
 		c.Log("stop", "m%d", m.Idx)
 		// calls in flight on that process end with whatever it answers
-		cl.StopGraceful(m)
+		if !cl.StopGraceful(m) {
+			c.Violate(orProp(c, "C06"), "graceful-stop-hangs", "", "graceful stop of machine %d did not finish within two simulated minutes", m.Idx)
+		}
 	case 6: // leader transfer
 		l := cl.Leader(0)
 		ups := s.ups()
